@@ -188,11 +188,11 @@ def _families(names, seed, tier):
     return specs
 
 
-def sideb(names, label=None, determinism=False):
+def sideb(names, label=None, determinism=False, check_agreement=False):
     def fn(pid, tier, seed, sp):
         import sideb as SB
         specs = _families(names, seed, tier)
-        return SB.run_sideb(pid, specs, props_filter=pid, label=sp['label'], determinism=determinism)
+        return SB.run_sideb(pid, specs, props_filter=pid, label=sp['label'], determinism=determinism, check_agreement=check_agreement)
     return dict(kind='custom', fn=fn, label=label or 'sideB[%s]' % '+'.join(names), entry='sideB', params={})
 
 
@@ -592,3 +592,14 @@ for _t in ('quick', 'thorough'):
 # Bind under a dot import lives in the frontend family (seeded change S111)
 for _t in ('quick', 'thorough'):
     PROPS['C11'][_t] = PROPS['C11'][_t] + [sideb(['frontend'])]
+
+
+# wire check agrees with wire gen on the real binary, package by package, over the reject family and the front-end shapes
+# (added after seeded change S131: Load dropped the malformed-injector error that gen reports)
+for _t in ('quick', 'thorough'):
+    PROPS['C19'][_t] = PROPS['C19'][_t] + [sideb(['reject', 'frontend'], check_agreement=True)]
+PROPS['C19']['bounds_text'] += '; supplement (enumerated runs of the real binary, not solver-decided): wire check run on every package of the reject and frontend families must fail exactly where wire gen fails'
+
+# copyAST must not crash on any node kind with its optional children absent (C20), seeded change S132
+for _t in ('quick', 'thorough'):
+    PROPS['C20'][_t] = PROPS['C20'][_t] + [copyast()]
